@@ -97,3 +97,129 @@ def hirom_offset(a):
 def is_ram(a):
     bank = (a >> 16) & 0xFF
     return z3.And(a >= 0, a <= 0xFFFFFF, bank >= 0x7E, bank <= 0x7F)
+
+
+def advance(rom, a, n):
+    """Textbook address advance: logical address whose file offset is n larger than that of the
+    in-window ROM address a (same primary/mirror range, wrapping to the next bank's window start)."""
+    bank = (a >> 16) & 0xFF
+    if rom == "low":
+        first = z3.If(bank >= 0x80, B(0x80), B(0))
+        off = (bank - first) * 0x8000 + (a & 0x7FFF) + n
+        return ((first + z3.UDiv(off, B(0x8000))) << 16) | (0x8000 + z3.URem(off, B(0x8000)))
+    first = z3.If(bank >= 0xC0, B(0xC0), B(0x40))
+    off = (bank - first) * 0x10000 + (a & 0xFFFF) + n
+    return ((first + z3.UDiv(off, B(0x10000))) << 16) | z3.URem(off, B(0x10000))
+
+
+def rom_range_end(rom, a):
+    """Exclusive end (as file offset relative to the range start) of the ROM bank run containing a."""
+    bank = (a >> 16) & 0xFF
+    if rom == "low":
+        return z3.If(bank >= 0x80, B(0x50 * 0x8000), B(0x70 * 0x8000))
+    return z3.If(bank >= 0xC0, B(0x40 * 0x10000), B(0x3E * 0x10000))
+
+
+def in_rom_window(rom, a):
+    if rom == "low":
+        return z3.And(lorom_is_rom(a), (a & 0xFFFF) >= 0x8000)
+    return hirom_is_rom(a)
+
+
+def rom_offset(rom, a):
+    return lorom_offset(a) if rom == "low" else hirom_offset(a)
+
+
+def segs_of(block):
+    """Flatten a written block (bytes / SBytes / SBlob / SRope) into segments:
+    ('b', [64-bit terms]) | ('blob', name, start_term, len_term)."""
+    from symx.values import SBlob, SBytes, SRope
+
+    out = []
+
+    def push(x):
+        if isinstance(x, (bytes, bytearray)):
+            if x:
+                out.append(("b", [B(i) for i in x]))
+        elif isinstance(x, SBytes):
+            if x.b:
+                out.append(("b", [bv(i) for i in x.b]))
+        elif isinstance(x, SBlob):
+            out.append(("blob", x.name, bv(x.start), bv(x.length)))
+        elif isinstance(x, SRope):
+            for s in x.segs:
+                push(s)
+        else:
+            raise TypeError(type(x))
+
+    push(block)
+    merged = []
+    for s in out:
+        if merged and s[0] == "b" and merged[-1][0] == "b":
+            merged[-1] = ("b", merged[-1][1] + s[1])
+        else:
+            merged.append(s)
+    return merged
+
+
+class virtual_files:
+    """Files visible to the code under test under relative names: the symx virtual file system in
+    symbolic mode, real files in a scratch directory (cwd) in concrete mode.  `outputs` names
+    files the code will write (symbolic mode: recorded write/seek operations)."""
+
+    def __init__(self, cx, files, outputs=()):
+        self.cx, self.files, self.outputs = cx, files, list(outputs)
+        self.tmp = None
+        self.out = {}
+
+    def __enter__(self):
+        if self.cx.symbolic:
+            from symx import shims
+
+            for k, v in self.files.items():
+                shims.VFS[k] = v
+            for k in self.outputs:
+                shims.VFS_OUT[k] = None
+        else:
+            import os
+            import tempfile
+
+            self.old = os.getcwd()
+            self.tmp = tempfile.mkdtemp(prefix="a816verif-")
+            os.chdir(self.tmp)
+            for k, v in self.files.items():
+                d = os.path.dirname(k)
+                if d:
+                    os.makedirs(d, exist_ok=True)
+                with open(k, "wb") as f:
+                    f.write(v.encode("latin-1") if isinstance(v, str) else bytes(v))
+        return self
+
+    def written(self, name):
+        """Content written to output `name`: list of ('write', data)/('seek', pos) ops (symbolic) or bytes."""
+        if self.cx.symbolic:
+            from symx import shims
+
+            f = shims.VFS_OUT.get(name)
+            return None if f is None else f.ops
+        import os
+
+        if not os.path.exists(name):
+            return None
+        with open(name, "rb") as f:
+            return f.read()
+
+    def __exit__(self, *a):
+        if self.cx.symbolic:
+            from symx import shims
+
+            for k in self.files:
+                shims.VFS.pop(k, None)
+            self._ops = {k: shims.VFS_OUT.pop(k, None) for k in self.outputs}
+        else:
+            import os
+            import shutil
+
+            os.chdir(self.old)
+            shutil.rmtree(self.tmp, ignore_errors=True)
+        return False
